@@ -871,6 +871,31 @@ def _(T):
     return dict(rule=rule, keeps=keeps, slices=slices)
 
 
+@extractor("map_init")
+def _(T):
+    """where `find_MAP` starts the optimisation: the `init_loc_fn` of its AutoDelta guide, and the rounding of the returned values"""
+    tree, src = T["pysersic.py"]
+    fn = find_func(tree, "find_MAP", cls="BaseFitter")
+    init = None
+    for call in ast.walk(fn):
+        if isinstance(call, ast.Call) and (ast.get_source_segment(src, call.func) or "").endswith("AutoDelta"):
+            for kw in call.keywords:
+                if kw.arg == "init_loc_fn":
+                    init = (ast.get_source_segment(src, kw.value) or "").split(".")[-1].split("(")[0]
+            if init is None:
+                init = "default"
+    if init is None:
+        raise Miss("AutoDelta guide of find_MAP not found")
+    decimals = set()
+    for call in ast.walk(fn):
+        if isinstance(call, ast.Call) and (ast.get_source_segment(src, call.func) or "").endswith("round") and len(call.args) == 2 \
+                and isinstance(call.args[1], ast.Constant) and isinstance(call.args[1].value, int):
+            decimals.add(call.args[1].value)
+    if len(decimals) != 1:
+        raise Miss(f"rounding of the returned values: {sorted(decimals)}")
+    return dict(init=init, decimals=decimals.pop())
+
+
 @extractor("map_filter")
 def _(T):
     """the if / elif / elif chain over site names in BaseFitter.find_MAP(purge_extra=True)"""
@@ -1028,6 +1053,11 @@ def emit(c):
     A("/-- default physical ranges of linked parameters (multiband.py), substring rules in source order -/")
     A("def mbRangeRules : List MultiBand.RangeRule :=")
     A("  " + lean_list([f"⟨{lean_str(r[0])}, {lean_q(r[1])}, {lean_q(r[2])}, {b(r[3])}⟩" for r in c["mb_range_rules"]]))
+    A("")
+    mi = c["map_init"]
+    A("/-- BaseFitter.find_MAP: where the AutoDelta guide starts (`init_loc_fn`) and to how many decimals the returned values are rounded -/")
+    A(f"def mapInitFn : String := {lean_str(mi['init'])}")
+    A(f"def mapRoundDecimals : Nat := {mi['decimals']}")
     A("")
     mf = c["map_filter"]
     A("/-- the if / elif / elif chain over site names in BaseFitter.find_MAP (pysersic.py), translated from the source -/")
